@@ -56,7 +56,10 @@ class C05(Check):
     rule = ('chunk lists (sizes 1..40, upper/lower hex, leading zeros, extensions, trailers) x buffer x read '
             'schedules; strict prefixes, single-byte substitution/deletion/insertion in framing, wrong sizes, '
             'lenient int() spellings, garbage over the framing alphabet; through _body_read and a WSGI call; '
-            'plus the encoder of the round-trip theorem against an independent Python encoder; '
+            'plus the encoder of the round-trip theorem against an independent Python encoder; overlap axis: a '
+            'complete decode of another request runs inside this request\'s read callback (every k-th / every single '
+            'call, same thread or another thread, unit and WSGI) or the two generators are advanced alternately - '
+            'results must equal the solo results; '
             'non-trivial = at least one chunk or a malformed input')
     assumptions = ['wsgi.input.read(n) returns at most n bytes and returns b"" only at end of data (the stream model)',
                    'legal encoding = RFC 7230 chunked-body whose chunk extensions contain no LF',
@@ -66,7 +69,7 @@ class C05(Check):
         self.stats = {}
 
     def budget(self, tier, escalated):
-        n = 4000 if tier == "quick" else 240000
+        n = 3000 if tier == "quick" else 240000
         return n * (4 if escalated and tier == 'quick' else 1)
 
     def nontrivial(self, sample):
@@ -75,9 +78,26 @@ class C05(Check):
     # ------------------------------------------------------------------
     def _emit(self, out, rng, raw, buf, sched, maxb, meta, wsgi):
         st = self.stats
+        hook, ov = None, None
+        if rng.random() < .2:
+            # overlap axis: a complete decode of another request runs inside this one's read callback;
+            # the model has no shared state, so the expected answer is the solo line
+            b = bl.gen_overlap_b(rng, rng.random() < .85)
+            mode = rng.choice(['wsgi', 'thread-wsgi'] if wsgi else ['unit', 'unit', 'thread-unit'])
+            spec = bl.gen_spec(rng, max(4, len(raw) + 2))
+            sink = []
+            hook = (bl.when_of(spec), bl.b_runner(mode, b, sink))
+            ov = dict(mode=mode, spec=spec, b=bl.pack_req(b))
+            meta = dict(meta, overlap=ov)
+            bl.bump(st, 'overlap:' + mode)
         if not wsgi:
             cl = rng.choice([-1, 0, len(raw), 3])
-            res = bl.run_read(raw, sched, buf, cl, True, maxb)
+            res = bl.run_read(raw, sched, buf, cl, True, maxb, hook=hook)
+            if ov and ov['mode'] == 'unit':
+                for ans in sink[:2]:       # B itself, decoded in the middle of A, against its model line
+                    out.append((bl.line_read(b['raw'], b['sched'], b['buf'], b['cl'], b['chunked'], None), ans,
+                                dict(kind='read', buf=b['buf'], max=None, sched=b['sched'][:8], full_sched=b['sched'],
+                                     raw=b['raw'].hex(), chunks=1, mut=None, nested_in=raw.hex())))
             out.append((bl.line_read(raw, sched, buf, cl, True, maxb), bl.ans_read(res),
                         dict(kind='read', buf=buf, max=maxb, sched=sched[:8], full_sched=sched, raw=raw.hex(), **meta)))
             bl.bump(st, f'unit:{meta.get("mut") or "legal"}:' + ('ok' if res['ok'] else res['err']))
@@ -86,8 +106,14 @@ class C05(Check):
             clh = rng.choice([None, None, None, str(len(raw)), '2'])
             ops = rng.choice([['B'], ['B'], ['B', 'B'], ['B', 'S'], ['S'], ['P2', 'B', 'I'], ['?B', 'B'], ['?B', '?B', 'I'],
                               ['?S', '?B'], ['?B', '?S', '?B']])
+            if rng.random() < .15:      # the application replaces wsgi.input (another chunked body) and reads again
+                e2 = bl.gen_enc(rng, 3, 20)
+                r2 = e2.encode() if rng.random() < .7 else mutate(rng, e2)[0]
+                rp = bl.rop(r2, bl.gen_sched(rng, max(1, len(r2)))[:40])
+                ops = rng.choice([['?B', rp, 'B'], ['B', rp, 'B', 'I'], ['?B', rp, '?B', '?S'], ['?S', 'K', rp, '?B', 'O', '?B']])
+                bl.bump(st, 'wsgi:replace-input')
             mk = '@' if rng.random() < .8 else rng.choice(list(bl.MAPS))
-            res = bl.run_wsgi(mk, buf, maxb, clh, te, raw, sched, ops)
+            res = bl.run_wsgi(mk, buf, maxb, clh, te, raw, sched, ops, hook=hook)
             out.append((bl.line_wsgi(mk, buf, maxb, clh, te, raw, sched, ops), bl.ans_wsgi(res),
                         dict(kind='wsgi', buf=buf, max=maxb, te=te, cl_header=clh, ops=ops, map=mk, sched=sched[:8],
                              full_sched=sched, raw=raw.hex(), **meta)))
@@ -135,14 +161,6 @@ class C05(Check):
                 return f'{what}:unit-accepted', f'{what}: _body_read ' + ('accepted it' if r['ok'] else f'raised {r["err"]}')
             if w['status'] != 400:
                 return f'{what}:wsgi-status', f'{what}: WSGI answered {w["status"]}, expected 400'
-        if not r['ok']:
-            # a rejected body stays rejected: a handler that caught the error and asks again must not be
-            # handed whatever is left of the stream as a complete body
-            w2 = bl.run_wsgi('@', buf, None, None, 'chunked', raw, sched, ['?B', '?B', '?S'])
-            toks = w2['outs']
-            if len(toks) != 3 or any(not t.startswith('e:HTTP4') for t in toks):
-                return ('second-access-after-error',
-                        f'{what}: first Request.body access was rejected, later accesses gave {toks[1:]}')
         elif expect[0] == 'ok-or-reject':
             if r['ok'] and r['bytes'] != expect[1]:
                 return f'{what}:wrong-body', f'{what}: accepted with a body other than the payload'
@@ -155,11 +173,40 @@ class C05(Check):
                 return 'garbage:unit-exception', f'{what}: _body_read raised {r["err"]}'
             if w['status'] not in (200, 400, 413):
                 return 'garbage:wsgi-status', f'{what}: WSGI answered {w["status"]}'
+        if not r['ok']:
+            # a rejected body stays rejected: a handler that caught the error and asks again must not be
+            # handed whatever is left of the stream as a complete body
+            w2 = bl.run_wsgi('@', buf, None, None, 'chunked', raw, sched, ['?B', '?B', '?S'])
+            toks = w2['outs']
+            if len(toks) != 3 or any(not t.startswith('e:HTTP4') for t in toks):
+                return ('second-access-after-error',
+                        f'{what}: first Request.body access was rejected, later accesses gave {toks[1:]}')
+            # ... unless the application supplies a new stream: that one is decoded afresh
+            good = bl.Enc([(b'fresh body', b'A', b'')])
+            w3 = bl.run_wsgi('@', buf, None, None, 'chunked', raw, sched, ['?B', bl.rop(good.encode(), [1, 2]), 'B'])
+            if buf >= 3 and (w3['status'] != 200 or w3['info'].get('bodies') != [b'fresh body']):
+                return ('replace:after-rejected-read',
+                        f'{what}: rejected, then request["wsgi.input"] = a legal encoding: status {w3["status"]}, outs {w3["outs"]}')
+        else:
+            # what forms / json are built from is never a silent truncation of what request.body shows:
+            # _get_body_string returns the whole decoded body or is refused (413 over the threshold)
+            w4 = bl.run_wsgi('@', buf, None, None, 'chunked', raw, sched, ['M', 'B'], ctype='application/x-www-form-urlencoded')
+            if w4['status'] == 200:
+                shown = w4['info']['bodies'][0]
+                m = int(w4['outs'][0][2:])
+                if m != len(shown):
+                    return ('form-text-truncated', f'{what}: request.body shows {len(shown)} bytes, the form/JSON text '
+                            f'accessor returned {m} of them without an error')
+            elif w4['status'] != 413:
+                return ('form-text-status', f'{what}: form text accessor on a decodable chunked body answered {w4["status"]}')
         return None
 
     def _oracle(self, case):
         """case = dict(chunks=[(payload,spelling,ext)..] hex, last, trailer, buf, sched, probe, ...)"""
         kind = case['probe']
+        if kind == 'overlap':
+            bad = bl.overlap_check(bl.unpack_req(case['a']), bl.unpack_req(case['b']), case['mode'], case['spec'])
+            return ('overlap:result-differs-from-solo', bad) if bad else None
         sched = case['sched']
         if kind == 'raw':
             return self._check_one(bytes.fromhex(case['raw']), case['buf'], sched, ('total',), 'garbage')
@@ -219,11 +266,49 @@ class C05(Check):
             else:
                 yield mk(probe='subst', off=o, byte=rng.choice(bl.GARBAGE))
 
+    def _overlap_cases(self, rng, n):
+        """overlap axis: B decoded completely at every single read call of A (inside a size line after
+        the first digit, between line and payload, inside the payload, before the CRLF, before the
+        last chunk ...), every k-th call, and the two generators advanced alternately"""
+        out = []
+        modes = ['unit', 'wsgi', 'thread-unit', 'thread-wsgi']
+        fixed = [bl.Enc([(b'hello', b'5', b''), (b'w' * 0x1a, b'1a', b';x')]),
+                 bl.Enc([(b'ab', b'02', b''), (b'cde', b'3', b''), (b'f', b'1', b'')], (b'00', b''), b'\r\n')]
+        k = 0
+        for enc in fixed:
+            raw = enc.encode()
+            for sched in ([], [1] * (len(raw) + 2)):
+                a = dict(raw=raw, sched=sched, buf=max(8, enc.max_line()), cl=-1, chunked=True)
+                for j in range(bl.solo_calls(a) + 1):
+                    b = bl.gen_overlap_b(rng, j % 5 != 4)
+                    out.append(dict(probe='overlap', a=bl.pack_req(a), b=bl.pack_req(b), mode=modes[k % 4], spec=['at', j]))
+                    k += 1
+                b = bl.gen_overlap_b(rng)
+                for order in ('ab', 'aab', 'abb', 'aaab', 'ba'):
+                    out.append(dict(probe='overlap', a=bl.pack_req(a), b=bl.pack_req(b), mode='alternate', spec=order))
+        for _ in range(max(10, n // 25)):
+            enc = bl.gen_enc(rng)
+            raw = enc.encode() if rng.random() < .7 else mutate(rng, enc)[0]
+            a = dict(raw=raw, sched=bl.gen_sched(rng, max(1, len(raw))), buf=bl.buf_for(rng, enc, True), cl=-1, chunked=True)
+            b = bl.gen_overlap_b(rng, rng.random() < .85)
+            if rng.random() < .25:
+                out.append(dict(probe='overlap', a=bl.pack_req(a), b=bl.pack_req(b), mode='alternate',
+                                spec=''.join(rng.choice('ab') for _ in range(rng.randint(2, 6))) + 'ab'))
+            else:
+                out.append(dict(probe='overlap', a=bl.pack_req(a), b=bl.pack_req(b), mode=rng.choice(modes),
+                                spec=bl.gen_spec(rng, max(4, len(raw) + 2))))
+        return out
+
     def search(self, rng, n, seeds):
         findings, evals, cases = [], 0, []
         for s in seeds:
             if 'raw' in s:
                 cases.append(dict(probe='raw', raw=s['raw'], buf=s['buf'], sched=s['full_sched']))
+            if s.get('overlap'):
+                o = s['overlap']
+                cases.append(dict(probe='overlap', mode=o['mode'], spec=o['spec'], b=o['b'],
+                                  a=dict(raw=s['raw'], sched=s['full_sched'], buf=s['buf'], cl=-1, chunked=True)))
+        cases += self._overlap_cases(rng, n)
         # dense scope on a few small encodings: every cut, every CRLF pair, every framing byte
         fixed = [bl.Enc([(b'hello', b'5', b'')]),
                  bl.Enc([(b'ab', b'2', b';x=1'), (b'\r\n0\r\n\r\n' + b'c' * 8, b'0F', b'')], (b'00', b';z'), b'T: 1\r\n\r\n'),
